@@ -448,14 +448,10 @@ Definition st_add (s : state) (given : string) (x : json) (now : Z) (fresh : str
           | Ok rule =>
               match add_hook_err s fact with
               | Some e =>
-                  (* the hook runs after the rule was indexed and before the
-                     fact is recorded *)
-                  let s1 := match rule with
-                            | Some r => if is_scheduled r then s
-                                        else match st_add_mem_idx s id fact with (s', _) => set_facts (set_tindex s' (st_tindex s)) (st_facts s) end
-                            | None => s
-                            end in
-                  (s1, Err e)
+                  (* the hook runs after the rule index was updated and before the
+                     fact is recorded; on its error the index changes are undone
+                     (fix: commit in /repo) and the state is as it was *)
+                  (s, Err e)
               | None =>
                   match st_add_mem_idx s id fact with
                   | (s1, Some e) => (s1, Err e)
